@@ -79,6 +79,13 @@ def run(ck):
                           and (e.get("callee") or "").startswith("std::vector<std::shared_ptr<Pistache::Http::Experimental::Connection>>::")):
             grows.append((fn, e))
     ck.require(grows, "creation of pooled connections not found")
+    # growth written in a private helper that only pickConnection reaches is judged in the flattened view of pickConnection
+    grows = [(fn, e) for fn, e in grows if fn.base == POOL + "pickConnection" or not lib.only_reached_from(prog, fn, {POOL + "pickConnection"})]
+    seen_locs = {e.loc for _f, e in grows}
+    for e in g.calls(lambda e: e.base_callee() in ("std::vector::push_back", "std::vector::emplace_back", "std::vector::insert", "std::vector::resize")
+                     and (e.get("callee") or "").startswith("std::vector<std::shared_ptr<Pistache::Http::Experimental::Connection>>::")):
+        if e.loc not in seen_locs:
+            grows.append((g, e))
     for fn, e in grows:
         ok = fn.base == POOL + "pickConnection"
         detail = "pool grows in %s" % fn.base
@@ -115,16 +122,22 @@ def run(ck):
             # inside the connection itself: its own queue drained after connect, or perform()/asyncPerform() (directly, in their
             # promise lambda, or in a private helper only they reach) -- which are only called on a freshly claimed connection (below)
             ok, why = True, "the connection's own entry points (perform / asyncPerform / processRequestQueue), on this"
-        elif where == CLIENT + "processRequestQueue":
+        elif where == CLIENT + "processRequestQueue" or (not fn.is_lambda and lib.only_reached_from(prog, fn, {CLIENT + "processRequestQueue"})):
+            if where != CLIENT + "processRequestQueue":
+                # a private piece of Client::processRequestQueue: analysed in the flattened view of that function
+                F_ = lib.single(prog, CLIENT + "processRequestQueue")
+                m_ = [x for x in F_.events("call") if x.get("callee") == e.get("callee") and x.get("l") == e.get("l") and x.get("c") == e.get("c")]
+                if m_:
+                    fn, e = F_, m_[0]
             rv = (e.get("recv") or {}).get("root")
 
             def picked_and_tested(var, at, vd=None):
                 d = [x for x in fn.events("decl") if x.get("var") == var and (vd is None or x.get("vd") == vd) and strip_tmpl(x.get("icall") or "") == POOL + "pickConnection"]
-                nulltest = [b for b in fn.blocks.values() if b.term and b.term.get("k") == "if" and (b.term.get("core") or {}).get("root") == var and b.term.get("neg")
-                            and (not d or (b.term.get("core") or {}).get("rootd") in (None, d[0].get("vd")))]
-                dom_ = cfg.dominators(fn)
-                tests = [b for b in nulltest if b.id in dom_.get(at.block, ())]
-                return bool(d) and bool(tests) and all(cfg.edge_dominates(fn, b.id, 1, at) for b in tests)
+                # edges on which the picked connection is known not to be null: `if (!c) break;` not taken, `if (c)` / `while (auto c = pick())` taken
+                nonnull = [(b.id, 1 if b.term.get("neg") else 0) for b in fn.blocks.values() if b.term and b.term.get("k") in ("if", "while", "for") and
+                           (b.term.get("core") or {}).get("root") == var and not b.term.get("cmp") and len(b.succs) == 2
+                           and (not d or (b.term.get("core") or {}).get("rootd") in (None, d[0].get("vd")))]
+                return bool(d) and bool(nonnull) and any(cfg.edge_dominates(fn, bid_, k_, at) for bid_, k_ in nonnull)
             ok = picked_and_tested(rv, e, (e.get("recv") or {}).get("rootd"))
             why = "connection '%s' picked (claimed) on this path and tested for null" % rv
             if not ok:
@@ -132,9 +145,14 @@ def run(ck):
                 d = [x for x in fn.events("decl") if x.get("var") == rv and x.get("vd") == (e.get("recv") or {}).get("rootd")]
                 src = ((d[0].get("init") or {}).get("root")) if d else None
                 lists = [x for x in fn.events("decl") if x.get("var") and "vector" in (x.get("ctype") or x.get("type") or "") and "Connection" in (x.get("ctype") or x.get("type") or "")]
+                # work lists handed from one piece of the function to the next (returned by a helper, passed to another) are one list
+                all_adds = [c for lst in lists for c in fn.calls(lambda c: (c.get("recv") or {}).get("v") == lst["var"] and lib.is_stl_mutation(c) and c.get("args"))]
                 for lst in lists:
                     adds = [c for c in fn.calls(lambda c: (c.get("recv") or {}).get("v") == lst["var"] and lib.is_stl_mutation(c) and c.get("args"))]
-                    from_list = any((r_.get("init") or {}).get("v") == lst["var"] or ("v:" + lst["var"]) in (r_.get("refs") or []) for r_ in fn.events("decl") if r_.get("var") in (src, rv, "__range1", "__range2", "__range3"))
+                    if not adds and getattr(fn, "flattened", False):
+                        adds = all_adds
+                    from_list = any((r_.get("init") or {}).get("v") == lst["var"] or ("v:" + lst["var"]) in (r_.get("refs") or []) for r_ in list(fn.events("decl")) + list(fn.events("bind"))
+                                    if r_.get("var") in (src, rv, "__range1", "__range2", "__range3") or (r_.get("var") or "").split("@")[0] in ("__range1", "__range2", "__range3"))
                     okadds = bool(adds) and all(picked_and_tested(((a_["args"][0].get("moved") or a_["args"][0]).get("v")), a_, ((a_["args"][0].get("moved") or a_["args"][0]).get("vd"))) for a_ in adds)
                     if okadds and (from_list or src):
                         ok = True
@@ -330,7 +348,7 @@ def run(ck):
     ck.require(picks, "pickConnection not found in Client::processRequestQueue")
     for d_ in picks:
         var = d_["var"]
-        nulls = {(b.id, 0 if b.term.get("neg") else 1) for b in prq.blocks.values() if b.term and b.term.get("k") == "if" and (b.term.get("core") or {}).get("root") == var and not b.term.get("cmp")}
+        nulls = {(b.id, 0 if b.term.get("neg") else 1) for b in prq.blocks.values() if b.term and b.term.get("k") in ("if", "while", "for") and (b.term.get("core") or {}).get("root") == var and not b.term.get("cmp")}
 
         def disposes(ev):
             if ev["k"] != "call":
